@@ -55,7 +55,7 @@ class Driver:
         s = self.s
         if self.is_async:
             return self._run(self._ado(op, args, limit))
-        if op == "open":
+        if op in ("open", "open_cancel"):
             s.__enter__()
             return None
         if op == "refresh":
@@ -124,6 +124,12 @@ class Driver:
         s = self.s
         if op == "open":
             await s.__aenter__()
+            return None
+        if op == "open_cancel":
+            # the caller's own, shorter deadline around the context entry: the pending discovery is *cancelled* from
+            # outside (asyncio.CancelledError is a BaseException), not timed out by the session
+            import asyncio
+            await asyncio.wait_for(s.__aenter__(), 0.05)
             return None
         if op == "refresh":
             return await s.refresh()
